@@ -20,8 +20,19 @@ def main() -> int:
     from hv.world import Chooser
 
     harness = importlib.import_module(rec["harness"])
+    from hv.core import ExecutionTimeout, Result, _deadline, EXEC_DEADLINE_S, viol
+
     ch = Chooser(rec["choices"])
-    res = harness.execute(rec["program"], ch)
+    try:
+        with _deadline(EXEC_DEADLINE_S):
+            res = harness.execute(rec["program"], ch)
+    except ExecutionTimeout:
+        res = Result(
+            "timeout",
+            True,
+            [viol("termination", "execution-does-not-terminate", f"finishes within {EXEC_DEADLINE_S}s", f"still running after {len(ch.choices)} choice points")],
+            {"timeout": True},
+        )
     sigs = sorted(v["signature"] for v in res.violations)
     if quiet:
         print(digest([ch.choices, res.outcome, res.obs, res.violations]))
@@ -43,4 +54,11 @@ def main() -> int:
 
 
 if __name__ == "__main__":
-    sys.exit(main())
+    try:
+        code = main()
+    except Exception:  # noqa: BLE001 - a crashing replay is a harness error, not a reproduction
+        import traceback
+
+        traceback.print_exc()
+        code = 4
+    sys.exit(code)
